@@ -1,6 +1,7 @@
 """Translator: the locking on the downward data path of the CURRENT source -> Gen/ConcCfg.lean.  One stanza is sent
 through the real coder / noise / segments layers with instrumented locks; which locks are held at the encryption
-and at the two network writes, without having been released in between, decides the configuration."""
+and at the two network writes, without having been released in between, decides the configuration; a lock that is taken with a
+timeout or by try-lock does not count (it excludes nobody once the wait gives up)."""
 import boot  # noqa: F401
 
 LEAN_FILE = "ConcCfg.lean"
@@ -30,8 +31,12 @@ def probe():
                 here = set((i, a) for i, (l, a) in m.items() if l.owner is owner)
                 common = here if common is None else (common & here)
             return bool(common)
-        outer = through(L["coder"], [enc[0], wr[0], wr[1]]) or through(L["top"], [enc[0], wr[0], wr[1]])
-        inner = through(L["noise"], [wr[0], wr[1]])
+        def unconditional(owner):
+            """every acquisition of that owner's locks waits for the lock (no timeout, no try-lock): only then does holding it exclude others"""
+            return all(l.conditional == 0 for l in coop.LOCKS if l.owner is owner)
+        outer = (through(L["coder"], [enc[0], wr[0], wr[1]]) and unconditional(L["coder"])) or \
+                (through(L["top"], [enc[0], wr[0], wr[1]]) and unconditional(L["top"]))
+        inner = through(L["noise"], [wr[0], wr[1]]) and unconditional(L["noise"])
         return outer, inner
     finally:
         coop.uninstall()
